@@ -170,10 +170,19 @@ func (e *lkEp) op(c *Ctx, line string) {
 		}
 		e.srv.onExec = func(l *logged) {
 			if l.name == "lk.delkey" && l.rep.typ == ':' && l.rep.n == 1 {
+				// the holder's own delkey removed a key (called under the server mutex, after the deletion):
+				// its context must be done unless it still owns a majority (then this was a single key lost
+				// through an error, which the holder survives - a loss, not a release)
+				own := 0
+				for i := 0; i < e.n; i++ {
+					if v := e.srv.keys[e.key(i)]; v != nil && v.s == l.args[0] {
+						own++
+					}
+				}
 				e.mu.Lock()
 				for _, h := range e.holders {
-					if h.val == l.args[0] && h.ctx.Err() == nil {
-						e.early = append(e.early, "delkey removed "+l.keys[0]+" while the holder's lock context was still live (DEL precedes cancel())")
+					if h.val == l.args[0] && h.ctx.Err() == nil && own < e.m {
+						e.early = append(e.early, fmt.Sprintf("delkey removed %s, leaving the holder %d of %d keys (majority %d), while its lock context was still live (DEL precedes cancel())", l.keys[0], own, e.n, e.m))
 					}
 				}
 				e.mu.Unlock()
